@@ -100,7 +100,8 @@ static int parse_sizes(char *s, size_t *v, int max) {
 
 /* READSEQ <file> <n1,n2,...>: zck_read with these buffer sizes (the last one repeats) until a
  * call returns <= 0; after an error two more calls are made (their results are reported too).
- *  -> OK rets=<r1,r2,...> n=<bytes returned by successful calls> out=<bytes> close=<0|1>  |  ERR open */
+ * After the first error zck_clear_error() is called once (ce = its result, -1 if there was no error).
+ *  -> OK rets=<r1,r2,...> ce=<-1|0|1> n=<bytes returned by successful calls> out=<bytes> close=<0|1>  |  ERR open */
 static void op_readseq(FILE *out, const char *id, char **a, int n) {
     int fd;
     zckCtx *zck = open_file(a[0], &fd);
@@ -108,7 +109,7 @@ static void op_readseq(FILE *out, const char *id, char **a, int n) {
     size_t sizes[64]; int ns = parse_sizes(a[1], sizes, 64);
     size_t cap = 1 << 20, len = 0; unsigned char *all = malloc(cap);
     fprintf(out, "%s OK rets=", id);
-    int calls = 0, after_err = 0, maxcalls = 100000;
+    int calls = 0, after_err = 0, maxcalls = 100000, ce = -1;
     for(;;) {
         size_t bs = sizes[calls < ns ? calls : ns - 1];
         unsigned char *buf = malloc(bs ? bs : 1);
@@ -120,12 +121,14 @@ static void op_readseq(FILE *out, const char *id, char **a, int n) {
             memcpy(all + len, buf, r); len += r;
         }
         free(buf);
+        /* a consumer may clear the error and go on reading the same context */
+        if(r < 0 && ce < 0) ce = zck_clear_error(zck);
         if(r < 0) { if(++after_err > 2) break; continue; }
         if(after_err) { if(++after_err > 2) break; continue; }
         if(r == 0 && bs > 0) break;
         if(calls >= maxcalls) break;
     }
-    fprintf(out, " n=%zu out=", len);
+    fprintf(out, " ce=%d n=%zu out=", ce, len);
     put_bytes(out, all, len);
     fprintf(out, " close=%d\n", (int)zck_close(zck));
     free(all);
